@@ -143,8 +143,9 @@ func tokenize(expr string) ([]string, error) {
 			continue
 		}
 
-		// Handle multi-character operators
-		if i+1 < len(expr) {
+		// Handle multi-character operators. A word operator (OR, IS) is read with the identifiers below: taking two
+		// letters here would split it off the front of a column name (order_id, is_ok, island).
+		if i+1 < len(expr) && !isLetter(expr[i]) {
 			twoChar := expr[i : i+2]
 			if isOperator(twoChar) {
 				tokens = append(tokens, twoChar)
